@@ -70,9 +70,17 @@ type CProgram struct {
 	ParamTerms  []string
 	Provs       map[string]int // provider symbol -> arity
 	Flds        map[string]bool
+	// ExtraOuts: result functions of providers the reference speaks of although no path of the
+	// generated code calls them.
+	ExtraOuts []ExtraOut
 	// LimitSet/Limit: errgroup.SetLimit(n) was called before any eg.Go (n >= 0).
 	LimitSet bool
 	Limit    int
+}
+
+type ExtraOut struct {
+	Prov           string
+	Results, Arity int
 }
 
 type ctxObj struct {
